@@ -62,7 +62,7 @@ Definition br_peek_discard (n:nat) (b:bufio) : bytes * option berror * bufio :=
      {| bsize := bsize b1; bbuf := []; berr := None; src := src b1 |}).
 
 (* br.Read(p) with len(p) = m > 0 *)
-Definition br_read (m:nat) (b:bufio) : bytes * option errk * bufio :=
+Definition br_read_nz (m:nat) (b:bufio) : bytes * option errk * bufio :=
   match bbuf b with
   | [] =>
     match berr b with
@@ -81,6 +81,22 @@ Definition br_read (m:nat) (b:bufio) : bytes * option errk * bufio :=
     end
   | _ => (firstn m (bbuf b), None, {| bsize := bsize b; bbuf := skipn m (bbuf b); berr := berr b; src := src b |})
   end.
+
+(* br.Read(p) with len(p) = m.  A zero-length read never touches the transport:
+     n = len(p); if n == 0 { if b.Buffered() > 0 { return 0, nil }; return 0, b.readErr() }
+   (readErr returns the pending error, if any, and clears it) *)
+Definition br_read (m:nat) (b:bufio) : bytes * option errk * bufio :=
+  match m with
+  | O =>
+    match bbuf b with
+    | [] => ([], berr b, {| bsize := bsize b; bbuf := []; berr := None; src := src b |})
+    | _ => ([], None, b)
+    end
+  | S _ => br_read_nz m b
+  end.
+
+Lemma br_read_pos m b : (0 < m)%nat -> br_read m b = br_read_nz m b.
+Proof. destruct m as [|m]; [intros H; inversion H|reflexivity]. Qed.
 
 (* io.CopyN(io.Discard, br, n): Discard's ReadFrom loops br.Read on a LimitedReader with an
    8192-byte buffer.  Result: None = nil error; Some e = error (EEOF = io.EOF when short). *)
